@@ -1,6 +1,6 @@
 CONSTANTS
   RAlphabet <- NA
-  RMaxLen = 8
+  RMaxLen = 7
 SPECIFICATION RSpec
 INVARIANT RTypeOK
 INVARIANT InOrder
